@@ -260,6 +260,13 @@ def _combine(ctx: Ctx, cer: gw.Ceremony, request: Psbt, answers: list[Psbt], pin
         made = _conflict(ctx, full, copies, keeps)
         kind = "split+conflict" if made else kind
     _judge(ctx, copies, kind)
+    if ch.draw(4, "split.of-final?") == 0:
+        # the Finalizer's output split like any other psbt: an input's final script_sig in one copy and its final
+        # witness in another (a p2sh-wrapped segwit input is spent with both) are two pairs of one map
+        with ctx.must_succeed(P10, "closure", "finalize"):
+            final = finalize(full, solver=cer.solver)
+        pieces, _ = pf.split(ch, final, pinned, 2 + ch.draw(3, "split.k2"))
+        _judge(ctx, pieces, "split-of-final")
 
 
 def _conflict(ctx: Ctx, full: Psbt, copies: list[Psbt], keeps: list[set[pf.Atom]]) -> bool:
